@@ -406,7 +406,7 @@ def concurrent_part(ck, tlc_programs, thorough):
     nrand = 3000 if thorough else 320
     cases = []
     for i in range(nrand):
-        prog = tlc_programs[i % len(tlc_programs)] if i < (600 if thorough else 90) else random_program(rng)
+        prog = tlc_programs[i % len(tlc_programs)] if i < (600 if thorough else 150) else random_program(rng)
         cases.append("cache=%d | %s | %s %d" % (rng.choice([1, 1, 2]), prog, "randomt" if i % 2 else "random", ck.seed * 7919 + i))
     cp = os.path.join(ck.work, "conc_cases.txt")
     open(cp, "w").write("\n".join(cases) + "\n")
